@@ -86,48 +86,6 @@ theorem maxGrade?_none {cv : WProfile} {c : Cand} (h : ∀ bw ∈ cv, ballotScor
     intro bw hbw; exact h bw hbw
   rw [this]; rfl
 
-/-! ### `_find_best_votes` raises exactly when a ballot has run out -/
-
-theorem listMin_ok {l : List Rat} (h : l ≠ []) : ∃ m, listMin l = .ok m := by
-  cases l with
-  | nil => exact absurd rfl h
-  | cons x xs => exact ⟨_, rfl⟩
-
-theorem mapM_ok_of_forall {α β : Type} {f : α → Except Err β} : ∀ (l : List α), (∀ x ∈ l, ∃ y, f x = .ok y) →
-    ∃ r, l.mapM f = .ok r ∧ r.length = l.length := by
-  intro l
-  induction l with
-  | nil => intro _; exact ⟨[], rfl, rfl⟩
-  | cons a as ih =>
-    intro h
-    obtain ⟨y, hy⟩ := h a List.mem_cons_self
-    obtain ⟨r, hr, hlen⟩ := ih (fun x hx => h x (List.mem_cons_of_mem _ hx))
-    refine ⟨y :: r, ?_, by simp [hlen]⟩
-    rw [List.mapM_cons, hy, hr]; rfl
-
-theorem findBestVotes_ok {cv : WProfile} (c : Cand) (h : ballotRanOut cv = false) : ∃ best, findBestVotes cv c = .ok best := by
-  unfold ballotRanOut at h
-  simp only [Bool.or_eq_false_iff, List.isEmpty_eq_false_iff, List.any_eq_false] at h
-  obtain ⟨hne, hall⟩ := h
-  unfold findBestVotes
-  obtain ⟨mins, hmins, hlen⟩ := mapM_ok_of_forall (f := fun bw : SBallot × Rat => listMin (bw.1.map (·.2))) cv (by
-    intro bw hbw
-    apply listMin_ok
-    intro hnil
-    have := hall bw hbw
-    rw [List.map_eq_nil_iff] at hnil
-    simp [hnil] at this)
-  rw [hmins]
-  simp only [bind, Except.bind]
-  have hminsne : mins ≠ [] := by
-    intro hnil
-    rw [hnil] at hlen
-    simp at hlen
-    exact hne (List.eq_nil_of_length_eq_zero hlen.symm)
-  obtain ⟨start, hstart⟩ := listMin_ok hminsne
-  rw [hstart]
-  exact ⟨_, rfl⟩
-
 /-! ### spending equals its definition -/
 
 theorem spendSpec_fractionOut : ∀ (fuel : Nat) (cv : WProfile) (c : Cand) (q : Rat) (cv' : WProfile),
@@ -145,12 +103,10 @@ theorem spendSpec_fractionOut : ∀ (fuel : Nat) (cv : WProfile) (c : Cand) (q :
       rw [if_neg (not_lt.mpr hq)]; rfl
     · rw [if_neg hq] at h
       rw [if_pos (not_le.mp hq)]
-      cases hro : ballotRanOut cv with
-      | true => rw [hro] at h; simp at h
-      | false =>
-        rw [hro] at h
-        simp only [Bool.false_eq_true, if_false] at h
-        obtain ⟨best, hb⟩ := findBestVotes_ok c hro
+      have hro : True := trivial
+      cases hro with
+      | intro =>
+        obtain ⟨best, hb⟩ := findBestVotes_ok cv c
         rw [hb]
         simp only [bind, Except.bind]
         rcases findBestVotes_spec hb with ⟨hnil, hnone⟩ | ⟨m, hbest, hne, hmax⟩
@@ -200,19 +156,17 @@ theorem spendSpec_ballots : ∀ (fuel : Nat) (cv : WProfile) (c : Cand) (q : Rat
     split at h
     · injection h with h; subst h; exact fun bw hbw => ⟨bw, hbw, rfl⟩
     · split at h
-      · cases h
-      · split at h
-        · injection h with h; subst h; exact fun bw hbw => ⟨bw, hbw, rfl⟩
-        · simp only at h
-          split at h
-          · injection h with h; subst h
-            intro bw' hbw'
-            obtain ⟨bw, hbw, rfl⟩ := List.mem_map.mp hbw'
-            refine ⟨bw, hbw, ?_⟩
-            split <;> rfl
-          · intro bw' hbw'
-            obtain ⟨bw, hbw, he⟩ := ih _ _ _ _ h bw' hbw'
-            exact ⟨bw, (List.mem_filter.mp hbw).1, he⟩
+      · injection h with h; subst h; exact fun bw hbw => ⟨bw, hbw, rfl⟩
+      · simp only at h
+        split at h
+        · injection h with h; subst h
+          intro bw' hbw'
+          obtain ⟨bw, hbw, rfl⟩ := List.mem_map.mp hbw'
+          refine ⟨bw, hbw, ?_⟩
+          split <;> rfl
+        · intro bw' hbw'
+          obtain ⟨bw, hbw, he⟩ := ih _ _ _ _ h bw' hbw'
+          exact ⟨bw, (List.mem_filter.mp hbw).1, he⟩
 
 end VL.Score
 
@@ -454,11 +408,10 @@ theorem allocLoop_eq_spec (q : Rat) (hq : 0 ≤ q) : ∀ (rem fuel : Nat) (cv : 
     | zero => omega
     | succ fuel =>
       unfold allocSpecGo at h
-      cases hro : ballotRanOut cv with
-      | true => rw [hro] at h; simp at h
-      | false =>
-        rw [hro] at h
-        simp only [Bool.false_eq_true, if_false] at h
+      simp only at h
+      have hro : True := trivial
+      cases hro with
+      | intro =>
         -- the round table
         have hnd := sumScores_nodup cv
         have hval : ∀ p ∈ sumScores cv, p.2 = scoreSum cv p.1 := by
